@@ -110,15 +110,10 @@ theorem segLoop_sync {σ : Type} (w : World σ) (cfg : Cfg) (c0 : Nat) (hm : cfg
     | ok hd =>
       obtain ⟨hh, data⟩ := hd
       dsimp only
-      cases subU16 cfg.mode hh.header.length SEGMENT_HEADER_LEN with
-      | panic why => exact h
-      | err e => exact h
-      | ok chunk0 =>
-        dsimp only
-        repeat' split
-        all_goals first
-          | exact h
-          | exact ih _ _ _ s' h
+      repeat' split
+      all_goals first
+        | exact h
+        | exact ih _ _ _ s' h
 
 theorem sdoRead_sync {σ : Type} (w : World σ) (cfg : Cfg) (c0 : Nat) (hm : cfg.hasMailbox = true) (hw : 6 ≤ cfg.wmbx)
     (fuel bufLen index : Nat) (access : SubIndex) (s : St σ) (hs : Sync c0 s) :
